@@ -1,7 +1,457 @@
-(** C18 placeholder while the pipeline is brought up; replaced by the real theorems. *)
-From Coq Require Import ZArith List Bool.
-From Low Require Import Model.SectionWriter.
+(** C18 -- SectionWriter confines and accounts for every byte across any call sequence.
+
+    Only the property theorems (each closed by [exact]), their axiom audit and
+    non-vacuity examples.
+
+    Model ([Model/SectionWriter.v]): the concrete [(base, off, limit)] state in
+    int64 with every addition/subtraction wrapped ([i64]); [run s sc cs] is the
+    list of per-call results (return values, calls [(absolute offset, bytes)]
+    that reached the underlying writer) of the call sequence [cs] when the
+    underlying [io.WriterAt] answers with the response script [sc] -- a response
+    [(k, e)] accepts [min k len(p)] bytes and returns error class [e]
+    (0 = nil); an exhausted script accepts everything.  Every theorem
+    quantifies over all scripts ([script_ok]: counts are >= 0) and over all
+    call sequences ([call_ok]: Seek/WriteAt offsets are int64 values).
+
+    Spec ([Spec/SectionWriterSpec.v]): a section-relative cursor [pos >= 0] and a
+    length [n], in unbounded integers: [spec_section o n sc cs].
+
+    [reachable o n s]: [s] is the state of [NewSectionWriter(w, o, n)] after some
+    call sequence over some underlying writer.  The cursor of a reachable
+    state, relative to the section, is [off s - o].
+
+    Error classes: 0 nil, 1 io.ErrShortWrite, 3 errWhence, 4 errOffset, any
+    other value: the underlying writer's own error. *)
+From Coq Require Import ZArith List Bool Lia.
+From Low Require Import Lib.MachInt Lib.BitSeq Model.SectionWriter Spec.SectionWriterSpec Run.C18
+  Model.MemFile Model.SectionReader Spec.SectionReaderSpec Model.SectionPair Spec.SectionPairSpec
+  Proofs.SectionWriterProofs Proofs.SectionWriterCalls Proofs.MemFileProofs Proofs.SectionIOProofs
+  Proofs.SectionStreamProofs Proofs.SectionCountProofs Proofs.SectionPairProofs.
+Import ListNotations.
 Open Scope Z_scope.
-Theorem C18_size_partial : forall o, Size (mkSW o o o) = 0 -> True.
-Proof. exact (fun _ _ => I). Qed.
-Print Assumptions C18_size_partial.
+
+(** ** Refinement: for every section, call sequence and faulty writer, the
+    return values of every call and the (absolute offset, bytes) of every call
+    that reaches the underlying writer are those of the cursor/length machine. *)
+Theorem C18_refinement : forall o n sc cs,
+  0 <= o /\ 0 <= n /\ o + n <= 2^63 - 1 ->
+  Forall (fun r => 0 <= fst r) sc ->
+  Forall call_ok cs ->
+  map (fun r => (rets r, ucalls r)) (run (NewSectionWriter o n) sc cs)
+  = spec_section o n sc (map to_acall cs).
+Proof. exact section_refines. Qed.
+Print Assumptions C18_refinement.
+
+(** AtToWriter(w, o) behaves as a section from o with no practical end
+    (length 2^63-1-o) ... *)
+Theorem C18_at_to_writer : forall o sc cs,
+  0 <= o <= 2^63 - 1 ->
+  Forall (fun r => 0 <= fst r) sc ->
+  Forall call_ok cs ->
+  map (fun r => (rets r, ucalls r)) (run (AtToWriter o) sc cs)
+  = spec_at_to_writer o sc (map to_acall cs).
+Proof. exact at_to_writer_refines. Qed.
+Print Assumptions C18_at_to_writer.
+
+(** ... because it IS that section (the int64 subtraction maxOffset-offset does not wrap) *)
+Theorem C18_at_to_writer_is_section : forall o, 0 <= o <= 2^63 - 1 ->
+  AtToWriter o = NewSectionWriter o (2^63 - 1 - o).
+Proof. exact AtToWriter_section. Qed.
+Print Assumptions C18_at_to_writer_is_section.
+
+(** ** Containment: every call that reaches the underlying writer during a
+    call [c] of the sequence starts inside [o, o+n), ends at or before o+n and
+    carries a prefix ([firstn]) of the buffer the caller passed to [c]
+    ([contained_m], unfolded: forall (a, bs) among the underlying calls of the
+    result, o <= a < o+n /\ a + |bs| <= o+n /\ bs = firstn |bs| p). *)
+Theorem C18_containment : forall o n sc cs,
+  0 <= o /\ 0 <= n /\ o + n <= 2^63 - 1 ->
+  Forall (fun r => 0 <= fst r) sc ->
+  Forall call_ok cs ->
+  Forall2 (fun c r =>
+    forall a bs, In (a, bs) (ucalls r) ->
+      o <= a < o + n /\ a + zlen bs <= o + n /\
+      exists p, call_buf (to_acall c) = Some p /\ bs = firstn (length bs) p)
+    cs (run (NewSectionWriter o n) sc cs).
+Proof. exact section_contained. Qed.
+Print Assumptions C18_containment.
+
+(** ** State invariant: the section never moves and the cursor stays in [o, 2^63-1] *)
+Theorem C18_state_invariant : forall o n s,
+  0 <= o /\ 0 <= n /\ o + n <= 2^63 - 1 -> reachable o n s ->
+  base s = o /\ limit s = o + n /\ o <= off s <= 2^63 - 1.
+Proof. exact reachable_inv. Qed.
+Print Assumptions C18_state_invariant.
+
+(** ** Accounting, Write: from any reachable state (cursor pos = off s - o), either
+    n <= pos: nothing reaches the writer, state and script untouched, (0, ErrShortWrite); or
+    pos < n: exactly one underlying call, at o + pos, with the first m = min(|p|, n - pos)
+    bytes; the count returned is the writer's count cnt (0 <= cnt <= m); the cursor advances
+    by exactly cnt; the error is the writer's if it returned one, else ErrShortWrite iff m < |p|.
+    ([write_accounting] is exactly this disjunction, see Proofs/SectionWriterProofs.v.) *)
+Theorem C18_write_accounting : forall o n s sc p,
+  0 <= o /\ 0 <= n /\ o + n <= 2^63 - 1 -> reachable o n s ->
+  Forall (fun r => 0 <= fst r) sc ->
+  let pos := off s - o in
+  let '(s', sc', r) := Write s sc p in
+  (n <= pos /\ s' = s /\ sc' = sc /\ rets r = [0; E_short] /\ ucalls r = []) \/
+  (pos < n /\
+   let m := Z.min (zlen p) (n - pos) in
+   let bs := firstn (Z.to_nat m) p in
+   let '((cnt, e), rest) := under sc bs in
+   ucalls r = [(o + pos, bs)] /\ sc' = rest /\
+   off s' = off s + cnt /\ base s' = base s /\ limit s' = limit s /\
+   0 <= cnt <= m /\
+   rets r = [cnt; if e =? 0 then (if m <? zlen p then E_short else E_nil) else e]).
+Proof. exact write_accounting_at. Qed.
+Print Assumptions C18_write_accounting.
+
+(** Accounting, WriteAt at section-relative a: the cursor (the whole state) is untouched; either
+    a is outside [0, n): nothing reaches the writer, (0, ErrShortWrite); or exactly one
+    underlying call at o + a with the first min(|p|, n - a) bytes, count and error as for Write. *)
+Theorem C18_writeat_accounting : forall o n s sc p a,
+  0 <= o /\ 0 <= n /\ o + n <= 2^63 - 1 -> reachable o n s ->
+  Forall (fun r => 0 <= fst r) sc -> - 2^63 <= a < 2^63 ->
+  let '(s', sc', r) := WriteAt s sc p a in
+  s' = s /\
+  (((a < 0 \/ n <= a) /\ sc' = sc /\ rets r = [0; E_short] /\ ucalls r = []) \/
+   (0 <= a < n /\
+    let m := Z.min (zlen p) (n - a) in
+    let bs := firstn (Z.to_nat m) p in
+    let '((cnt, e), rest) := under sc bs in
+    ucalls r = [(o + a, bs)] /\ sc' = rest /\ 0 <= cnt <= m /\
+    rets r = [cnt; if e =? 0 then (if m <? zlen p then E_short else E_nil) else e])).
+Proof. exact writeat_accounting_at. Qed.
+Print Assumptions C18_writeat_accounting.
+
+(** The returned count equals the bytes passed through, call by call over any sequence and any
+    faulty writer: a Write / WriteAt makes at most one call to the underlying writer and returns
+    exactly the number of bytes of that call the writer accepted (0 when nothing reached it);
+    Seek and Size never reach the writer.  ([accepted cnt u] = |firstn cnt (bytes of u)|.) *)
+Theorem C18_count_is_bytes_passed : forall o n sc cs,
+  0 <= o /\ 0 <= n /\ o + n <= 2^63 - 1 ->
+  Forall (fun r => 0 <= fst r) sc -> Forall call_ok cs ->
+  Forall2 (fun c r =>
+    match c with
+    | CWrite _ | CWriteAt _ _ =>
+        (length (ucalls r) <= 1)%nat /\
+        ret_cnt r = zsum (map (accepted (ret_cnt r)) (ucalls r))
+    | CSeek _ _ | CSize => ucalls r = []
+    end) cs (run (NewSectionWriter o n) sc cs).
+Proof. exact section_count_is_bytes. Qed.
+Print Assumptions C18_count_is_bytes_passed.
+
+(** ** io.ErrShortWrite is returned exactly when the request is truncated by, or starts at or
+    beyond, the section end -- provided the underlying writer reports no error on this call
+    ([head_err sc = 0]); an error of the underlying writer is what is returned. *)
+Theorem C18_write_error_class : forall o n s sc p,
+  0 <= o /\ 0 <= n /\ o + n <= 2^63 - 1 -> reachable o n s ->
+  Forall (fun r => 0 <= fst r) sc ->
+  let pos := off s - o in
+  let err := ret_err (snd (Write s sc p)) in
+  (head_err sc = 0 ->
+     (err = E_short <-> (n <= pos \/ n - pos < zlen p)) /\
+     (err = E_nil <-> (pos < n /\ zlen p <= n - pos))) /\
+  (pos < n -> head_err sc <> 0 -> err = head_err sc) /\
+  (n <= pos -> err = E_short).
+Proof. exact write_error_class. Qed.
+Print Assumptions C18_write_error_class.
+
+Theorem C18_writeat_error_class : forall o n s sc p a,
+  0 <= o /\ 0 <= n /\ o + n <= 2^63 - 1 -> reachable o n s ->
+  Forall (fun r => 0 <= fst r) sc -> - 2^63 <= a < 2^63 ->
+  let err := ret_err (snd (WriteAt s sc p a)) in
+  (head_err sc = 0 ->
+     (err = E_short <-> (a < 0 \/ n <= a \/ n - a < zlen p)) /\
+     (err = E_nil <-> (0 <= a < n /\ zlen p <= n - a))) /\
+  (0 <= a < n -> head_err sc <> 0 -> err = head_err sc) /\
+  (a < 0 \/ n <= a -> err = E_short).
+Proof. exact writeat_error_class. Qed.
+Print Assumptions C18_writeat_error_class.
+
+(** ** Seek follows io.Seeker relative to the section.  In unbounded arithmetic, with the
+    absolute reference r (o for SeekStart, the cursor for SeekCurrent, o+n for SeekEnd) and
+    target r + d: an invalid whence is rejected; a target before the section start is
+    rejected; a target beyond 2^63-1 is rejected (this is what the int64 wrap of the Go
+    addition does); otherwise the cursor becomes r + d and r + d - o is returned.  A rejected
+    Seek leaves the state untouched; no Seek reaches the underlying writer. *)
+Theorem C18_seek : forall o n s d wh,
+  0 <= o /\ 0 <= n /\ o + n <= 2^63 - 1 -> reachable o n s -> - 2^63 <= d < 2^63 ->
+  Seek s d wh =
+  match (if wh =? 0 then Some o else if wh =? 1 then Some (off s)
+         else if wh =? 2 then Some (o + n) else None) with
+  | None => (s, mkOut [0; E_whence] [])
+  | Some r =>
+      if (r + d <? o) || (r + d >? 2^63 - 1) then (s, mkOut [0; E_offset] [])
+      else (mkSW o (r + d) (o + n), mkOut [r + d - o; E_nil] [])
+  end.
+Proof. exact seek_spec. Qed.
+Print Assumptions C18_seek.
+
+Theorem C18_seek_invalid_whence : forall o n s d wh,
+  0 <= o /\ 0 <= n /\ o + n <= 2^63 - 1 -> reachable o n s -> - 2^63 <= d < 2^63 ->
+  wh <> 0 -> wh <> 1 -> wh <> 2 ->
+  Seek s d wh = (s, mkOut [0; E_whence] []).
+Proof. exact seek_invalid_whence. Qed.
+Print Assumptions C18_seek_invalid_whence.
+
+Theorem C18_seek_before_start : forall o n s d wh r,
+  0 <= o /\ 0 <= n /\ o + n <= 2^63 - 1 -> reachable o n s -> - 2^63 <= d < 2^63 ->
+  (wh = 0 /\ r = o) \/ (wh = 1 /\ r = off s) \/ (wh = 2 /\ r = o + n) ->
+  r + d < o ->
+  Seek s d wh = (s, mkOut [0; E_offset] []).
+Proof. exact seek_before_start. Qed.
+Print Assumptions C18_seek_before_start.
+
+Theorem C18_seek_int64_wrap : forall o n s d wh r,
+  0 <= o /\ 0 <= n /\ o + n <= 2^63 - 1 -> reachable o n s -> - 2^63 <= d < 2^63 ->
+  (wh = 0 /\ r = o) \/ (wh = 1 /\ r = off s) \/ (wh = 2 /\ r = o + n) ->
+  r + d > 2^63 - 1 ->
+  Seek s d wh = (s, mkOut [0; E_offset] []).
+Proof. exact seek_int64_wrap. Qed.
+Print Assumptions C18_seek_int64_wrap.
+
+Theorem C18_seek_ok : forall o n s d wh r,
+  0 <= o /\ 0 <= n /\ o + n <= 2^63 - 1 -> reachable o n s -> - 2^63 <= d < 2^63 ->
+  (wh = 0 /\ r = o) \/ (wh = 1 /\ r = off s) \/ (wh = 2 /\ r = o + n) ->
+  o <= r + d <= 2^63 - 1 ->
+  Seek s d wh = (mkSW o (r + d) (o + n), mkOut [r + d - o; E_nil] []) /\
+  reachable o n (mkSW o (r + d) (o + n)).
+Proof. exact seek_ok. Qed.
+Print Assumptions C18_seek_ok.
+
+(** ** Size returns n, whatever happened before *)
+Theorem C18_size : forall o n s,
+  0 <= o /\ 0 <= n /\ o + n <= 2^63 - 1 -> reachable o n s -> Size s = n.
+Proof. exact size_reachable. Qed.
+Print Assumptions C18_size.
+
+(** ** Non-vacuity *)
+
+(** refinement / containment: section (10, 4); the writer accepts 1 of 3 bytes with its own
+    error, then everything; Write 3 bytes (short count + error, cursor 1), Write 5 bytes (3 land
+    at 11, truncated), Write again (refused at the end), seek back, WriteAt crossing the end,
+    Seek past the end, Size
+    (the sequence [ex_calls] and the script [ex_script] are defined at the end of Proofs/SectionWriterCalls.v) *)
+
+Example C18_refinement_nonvacuous :
+  (0 <= 10 /\ 0 <= 4 /\ 10 + 4 <= 2^63 - 1) /\
+  Forall (fun r => 0 <= fst r) ex_script /\ Forall call_ok ex_calls /\
+  map (fun r => (rets r, ucalls r)) (run (NewSectionWriter 10 4) ex_script ex_calls) =
+    [ ([1; 2], [(10, [1;2;3])]);
+      ([3; 1], [(11, [4;5;6])]);
+      ([0; 1], []);
+      ([2; 0], []);
+      ([2; 1], [(12, [10;11])]);
+      ([9; 0], []);
+      ([4], []) ] /\
+  spec_section 10 4 ex_script (map to_acall ex_calls) =
+    map (fun r => (rets r, ucalls r)) (run (NewSectionWriter 10 4) ex_script ex_calls).
+Proof.
+  split; [lia|]. split; [repeat first [apply Forall_cons | apply Forall_nil]; cbn [fst]; lia|]. split.
+  - unfold ex_calls. repeat first [apply Forall_cons | apply Forall_nil]; cbn [call_ok]; try exact I; lia.
+  - split; vm_compute; reflexivity.
+Qed.
+
+(** the reachable-state theorems: the state after the first two calls above is reachable, its
+    cursor is at the section end (the refusing branch); after the first call only it is
+    strictly inside (the writing branch) *)
+Example C18_reachable_nonvacuous :
+  reachable 10 4 (mkSW 10 11 14) /\ reachable 10 4 (mkSW 10 14 14) /\ reachable 10 4 (mkSW 10 19 14) /\
+  fst (fst (Write (mkSW 10 11 14) [(2, 0)] [4;5;6;7;8])) = mkSW 10 13 14 /\
+  snd (Write (mkSW 10 11 14) [(2, 0)] [4;5;6;7;8]) = mkOut [2; 1] [(11, [4;5;6])] /\
+  snd (Write (mkSW 10 14 14) [] [9]) = mkOut [0; 1] [] /\
+  snd (WriteAt (mkSW 10 19 14) [(5, 7)] [1;2;3] 3) = mkOut [1; 7] [(13, [1])] /\
+  Size (mkSW 10 19 14) = 4.
+Proof.
+  split; [|split; [|split]].
+  - exists ex_script, [CWrite [1;2;3]]. (split; [|split; [|reflexivity]]);
+      repeat first [apply Forall_cons | apply Forall_nil]; cbn [fst call_ok]; try exact I; lia.
+  - exists ex_script, [CWrite [1;2;3]; CWrite [4;5;6;7;8]]. (split; [|split; [|reflexivity]]);
+      repeat first [apply Forall_cons | apply Forall_nil]; cbn [fst call_ok]; try exact I; lia.
+  - apply inv_reachable; unfold sec_ok, inv; cbn [base off limit]; lia.
+  - vm_compute. repeat split; reflexivity.
+Qed.
+
+(** Seek: all four cases occur; the wrap case is AtToWriter(w, 100).Seek(1, io.SeekEnd) *)
+Example C18_seek_nonvacuous :
+  reachable 100 (2^63 - 1 - 100) (AtToWriter 100) /\
+  Seek (AtToWriter 100) 1 2 = (AtToWriter 100, mkOut [0; E_offset] []) /\
+  Seek (AtToWriter 100) 0 2 = (mkSW 100 (2^63 - 1) (2^63 - 1), mkOut [2^63 - 1 - 100; E_nil] []) /\
+  Seek (AtToWriter 100) (-1) 0 = (AtToWriter 100, mkOut [0; E_offset] []) /\
+  Seek (AtToWriter 100) 5 7 = (AtToWriter 100, mkOut [0; E_whence] []) /\
+  Seek (mkSW 10 11 14) (2^63 - 12) 1 = (mkSW 10 (2^63 - 1) 14, mkOut [2^63 - 11; E_nil] []) /\
+  Seek (mkSW 10 11 14) (2^63 - 11) 1 = (mkSW 10 11 14, mkOut [0; E_offset] []).
+Proof.
+  split.
+  - rewrite AtToWriter_section by lia. apply reachable_new.
+  - vm_compute. repeat split; reflexivity.
+Qed.
+
+(** * Widening: the rest of package iohelper (AtToReader) and its use together with
+    AtToWriter / SectionWriter over one file.
+
+    [Model/SectionReader.v]: AtToReader(r, o) = io.NewSectionReader(r, o, maxOffset-o) with the
+    Go library's SectionReader given a definitional model (trusted base, exercised by every
+    correspondence run).  [Model/MemFile.v]: the in-memory file of the harness: [write_at],
+    [read_at], [byte_at] (0 beyond the end), [file_after init outs] = the file after the
+    underlying calls of a call sequence, the file storing the prefix it accepted.
+    [Spec/SectionReaderSpec.v]: a stream position counted from o, unbounded integers. *)
+
+(** AtToReader(r, o) refines the stream reader from o, for every file, every fault script of
+    the file and every sequence of Read lengths: counts, error classes, bytes delivered and the
+    (absolute offset, length) asked of the file are the specification's. *)
+Theorem C18_at_to_reader : forall o f sc lens,
+  0 <= o <= 2^63 - 1 -> Forall (fun l => 0 <= l < 2^63) lens ->
+  map (fun r => (rcount r, rerr r, rbytes r, rcalls r)) (rrun (AtToReader o) f sc lens)
+  = spec_at_to_reader o f sc lens.
+Proof. exact at_to_reader_refines. Qed.
+Print Assumptions C18_at_to_reader.
+
+(** Over a file that does not fail, the Reads deliver, in order and without gap or overlap, the
+    bytes of the file from offset o on: as many as were asked for in total, or all there are. *)
+Theorem C18_at_to_reader_streams : forall o f lens,
+  0 <= o <= 2^63 - 1 -> zlen f <= 2^63 - 1 -> Forall (fun l => 0 <= l < 2^63) lens ->
+  concat (map rbytes (rrun (AtToReader o) f [] lens)) =
+  firstn (Z.to_nat (zsum lens)) (skipn (Z.to_nat o) f).
+Proof. exact at_to_reader_streams. Qed.
+Print Assumptions C18_at_to_reader_streams.
+
+(** Containment, seen in the file: whatever the call sequence and whatever the file accepts of
+    each call, every byte outside [o, o+n) is what it was (bytes beyond the end count as 0), the
+    file never shrinks and never grows beyond max(old length, o + n). *)
+Theorem C18_file_confined : forall o n sc cs init,
+  0 <= o /\ 0 <= n /\ o + n <= 2^63 - 1 ->
+  Forall (fun r => 0 <= fst r) sc -> Forall call_ok cs ->
+  let file := file_after init (run (NewSectionWriter o n) sc cs) in
+  (forall i, 0 <= i -> (i < o \/ o + n <= i) -> byte_at file i = byte_at init i) /\
+  zlen init <= zlen file <= Z.max (zlen init) (o + n).
+Proof. exact section_file_confined. Qed.
+Print Assumptions C18_file_confined.
+
+(** the file the model leaves is the file the cursor/length machine leaves *)
+Theorem C18_file_refinement : forall o n sc cs init,
+  0 <= o /\ 0 <= n /\ o + n <= 2^63 - 1 ->
+  Forall (fun r => 0 <= fst r) sc -> Forall call_ok cs ->
+  file_after init (run (NewSectionWriter o n) sc cs) =
+  spec_file_after init (spec_section o n sc (map to_acall cs)).
+Proof. exact section_file_refines. Qed.
+Print Assumptions C18_file_refinement.
+
+(** Round trip (how pbcmpl and its users combine the two): any sequence of Writes through
+    AtToWriter(f, o) over a file that accepts everything returns (len, nil) each, leaves the
+    concatenation stored at o, and any sequence of Reads through AtToReader(f, o) then streams
+    it back, followed by whatever the file held beyond it. *)
+Theorem C18_write_read_round_trip : forall o init bufs,
+  0 <= o -> o + zlen (concat bufs) < 2^63 - 1 -> zlen init <= 2^63 - 1 ->
+  let outs := run (AtToWriter o) [] (map CWrite bufs) in
+  let file := file_after init outs in
+  map rets outs = map (fun b => [zlen b; E_nil]) bufs /\
+  file = write_at init o (concat bufs) /\
+  forall lens, Forall (fun l => 0 <= l < 2^63) lens ->
+    concat (map rbytes (rrun (AtToReader o) file [] lens)) =
+    firstn (Z.to_nat (zsum lens)) (concat bufs ++ skipn (Z.to_nat (o + zlen (concat bufs))) init).
+Proof. exact at_to_writer_reader_round_trip. Qed.
+Print Assumptions C18_write_read_round_trip.
+
+(** NewSectionWriter "stops with io.ErrShortWrite after n bytes": a plain stream of Writes through
+    a section (o, n) over a file that accepts everything leaves exactly the first n bytes of the
+    stream at o, and the counts returned add up to min(n, length of the stream). *)
+Theorem C18_stream_truncates : forall o n init bufs,
+  0 <= o /\ 0 <= n /\ o + n <= 2^63 - 1 ->
+  let outs := run (NewSectionWriter o n) [] (map CWrite bufs) in
+  file_after init outs = write_at init o (firstn (Z.to_nat n) (concat bufs)) /\
+  zsum (map ret_cnt outs) = Z.min n (zlen (concat bufs)).
+Proof. exact section_stream_truncates. Qed.
+Print Assumptions C18_stream_truncates.
+
+Example C18_stream_nonvacuous :
+  file_after [9;9;9;9;9;9;9] (run (NewSectionWriter 1 4) [] (map CWrite [[1;2;3]; [4;5;6]; [7]])) = [9;1;2;3;4;9;9] /\
+  map rets (run (NewSectionWriter 1 4) [] (map CWrite [[1;2;3]; [4;5;6]; [7]])) = [[3; 0]; [1; 1]; [0; 1]] /\
+  write_at [9;9;9;9;9;9;9] 1 (firstn (Z.to_nat 4) (concat [[1;2;3]; [4;5;6]; [7]])) = [9;1;2;3;4;9;9].
+Proof. vm_compute. repeat split; reflexivity. Qed.
+
+(** non-vacuity of the widening: a 6-byte file, a section (2, 3) written with a truncated Write
+    after a short faulty one; bytes 0,1 and 5 keep their value; then a stream written at offset 4
+    (beyond the section, extending the file) is read back in chunks of 2, 0 and 5 bytes. *)
+Example C18_file_nonvacuous :
+  file_after [11;12;13;14;15;16] (run (NewSectionWriter 2 3) [(1, 2)] [CWrite [1;2]; CWrite [3;4;5]])
+    = [11;12;1;3;4;16] /\
+  map rets (run (NewSectionWriter 2 3) [(1, 2)] [CWrite [1;2]; CWrite [3;4;5]]) = [[1; 2]; [2; 1]] /\
+  file_after [11;12] (run (AtToWriter 4) [] (map CWrite [[1;2;3]; []; [4]])) = [11;12;0;0;1;2;3;4] /\
+  map rbytes (rrun (AtToReader 4) [11;12;0;0;1;2;3;4] [] [2; 0; 5]) = [[1;2]; []; [3;4]] /\
+  map rerr (rrun (AtToReader 4) [11;12;0;0;1;2;3;4] [] [2; 0; 5; 1]) = [0; 0; E_eof; E_eof] /\
+  map rcount (rrun (AtToReader (2^63 - 2)) [1;2;3] [] [5; 5]) = [0; 0] /\
+  map rcalls (rrun (AtToReader (2^63 - 2)) [1;2;3] [] [5; 5]) = [[(2^63 - 2, 1)]; [(2^63 - 2, 1)]] /\
+  map rcalls (rrun (AtToReader (2^63 - 1)) [1;2;3] [] [5]) = [[]].
+Proof. vm_compute. repeat split; reflexivity. Qed.
+
+(** * Widening: several section writers over one file ("several structures share one file").
+    [Model/SectionPair.v]: two SectionWriter states, every call a [step] on the state of the
+    writer it is addressed to ([(w, call)], w = 0: the first), one underlying writer whose
+    responses are consumed in call order.  [Spec/SectionPairSpec.v]: two independent cursors. *)
+
+(** the interleaved run refines two independent cursor/length machines *)
+Theorem C18_two_sections_refinement : forall o1 n1 o2 n2 sc wcs,
+  0 <= o1 /\ 0 <= n1 /\ o1 + n1 <= 2^63 - 1 -> 0 <= o2 /\ 0 <= n2 /\ o2 + n2 <= 2^63 - 1 ->
+  Forall (fun r => 0 <= fst r) sc -> Forall (fun wc => call_ok (snd wc)) wcs ->
+  map (fun r => (rets r, ucalls r)) (run2 (NewSectionWriter o1 n1, NewSectionWriter o2 n2) sc wcs)
+  = spec_two_sections o1 n1 o2 n2 sc (map to_wacall wcs).
+Proof. exact two_sections_refine. Qed.
+Print Assumptions C18_two_sections_refinement.
+
+(** every call stays inside the section of the writer it is addressed to *)
+Theorem C18_two_sections_containment : forall o1 n1 o2 n2 sc wcs,
+  0 <= o1 /\ 0 <= n1 /\ o1 + n1 <= 2^63 - 1 -> 0 <= o2 /\ 0 <= n2 /\ o2 + n2 <= 2^63 - 1 ->
+  Forall (fun r => 0 <= fst r) sc -> Forall (fun wc => call_ok (snd wc)) wcs ->
+  Forall2 (fun wc r =>
+      if fst wc =? 0
+      then Forall (fun u => o1 <= fst u /\ fst u + zlen (snd u) <= o1 + n1) (ucalls r)
+      else Forall (fun u => o2 <= fst u /\ fst u + zlen (snd u) <= o2 + n2) (ucalls r))
+    wcs (run2 (NewSectionWriter o1 n1, NewSectionWriter o2 n2) sc wcs).
+Proof. exact two_sections_contained. Qed.
+Print Assumptions C18_two_sections_containment.
+
+(** in the file: a byte outside both sections never changes (bytes beyond the end count as 0) *)
+Theorem C18_two_sections_file_confined : forall o1 n1 o2 n2 sc wcs init i,
+  0 <= o1 /\ 0 <= n1 /\ o1 + n1 <= 2^63 - 1 -> 0 <= o2 /\ 0 <= n2 /\ o2 + n2 <= 2^63 - 1 ->
+  Forall (fun r => 0 <= fst r) sc -> Forall (fun wc => call_ok (snd wc)) wcs ->
+  0 <= i -> (i < o1 \/ o1 + n1 <= i) -> (i < o2 \/ o2 + n2 <= i) ->
+  byte_at (file_after init (run2 (NewSectionWriter o1 n1, NewSectionWriter o2 n2) sc wcs)) i
+  = byte_at init i.
+Proof. exact two_sections_file_confined. Qed.
+Print Assumptions C18_two_sections_file_confined.
+
+(** non-interference: outside the second section, the file is exactly what the first writer's own
+    calls made of it ([outs_of_first wcs outs]: the results of the calls addressed to the first
+    writer) -- the second writer's calls, however interleaved, leave no trace there *)
+Theorem C18_two_sections_noninterference : forall o1 n1 o2 n2 sc wcs init i,
+  0 <= o1 /\ 0 <= n1 /\ o1 + n1 <= 2^63 - 1 -> 0 <= o2 /\ 0 <= n2 /\ o2 + n2 <= 2^63 - 1 ->
+  Forall (fun r => 0 <= fst r) sc -> Forall (fun wc => call_ok (snd wc)) wcs ->
+  0 <= i -> (i < o2 \/ o2 + n2 <= i) ->
+  let outs := run2 (NewSectionWriter o1 n1, NewSectionWriter o2 n2) sc wcs in
+  byte_at (file_after init outs) i = byte_at (file_after init (outs_of_first wcs outs)) i.
+Proof. exact two_sections_first_alone. Qed.
+Print Assumptions C18_two_sections_noninterference.
+
+(** the file the interleaved model leaves is the file the two cursor machines leave *)
+Theorem C18_two_sections_file_refinement : forall o1 n1 o2 n2 sc wcs init,
+  0 <= o1 /\ 0 <= n1 /\ o1 + n1 <= 2^63 - 1 -> 0 <= o2 /\ 0 <= n2 /\ o2 + n2 <= 2^63 - 1 ->
+  Forall (fun r => 0 <= fst r) sc -> Forall (fun wc => call_ok (snd wc)) wcs ->
+  file_after init (run2 (NewSectionWriter o1 n1, NewSectionWriter o2 n2) sc wcs) =
+  spec_file_after init (spec_two_sections o1 n1 o2 n2 sc (map to_wacall wcs)).
+Proof. exact two_sections_file_refines. Qed.
+Print Assumptions C18_two_sections_file_refinement.
+
+(** non-vacuity: adjacent sections (1, 2) and (3, 2) of a 6-byte file; the first writer writes 3
+    bytes (truncated to its 2), the second writes 1 and then 2 (truncated to 1) with the first
+    writer's refused Write in between; bytes 0 and 5 keep their value; dropping the second
+    writer's calls changes nothing at positions 0..2. *)
+Example C18_two_sections_nonvacuous :
+  let wcs := [(0, CWrite [1;2;3]); (1, CWrite [4]); (0, CWrite [5]); (1, CWrite [6;7])] in
+  let outs := run2 (NewSectionWriter 1 2, NewSectionWriter 3 2) [] wcs in
+  map rets outs = [[2; 1]; [1; 0]; [0; 1]; [1; 1]] /\
+  map ucalls outs = [[(1, [1;2])]; [(3, [4])]; []; [(4, [6])]] /\
+  file_after [9;9;9;9;9;9] outs = [9;1;2;4;6;9] /\
+  file_after [9;9;9;9;9;9] (outs_of_first wcs outs) = [9;1;2;9;9;9].
+Proof. vm_compute. repeat split; reflexivity. Qed.
